@@ -59,8 +59,11 @@ def judge(smiles):
         return None
     out = remove_atom_mapping(smiles)
     after, _ = ident_nomap(out)
+    om = oracle.parse(out)
+    # map numbers that survive: read from the parsed output (a ':' outside brackets is an aromatic bond)
+    residual = sum(1 for a in om.GetAtoms() if a.GetAtomMapNum() > 0) if om is not None else len(re.findall(r":\d+\]", out))
     return {"smiles": smiles, "out": out, "out_parses": after is not None, "same": after == before,
-            "residual": len(re.findall(r":\d+", out)), "closed": bool(closed)}
+            "residual": residual, "closed": bool(closed)}
 
 
 def main():
@@ -99,7 +102,13 @@ def main():
                  "[CH3:1][CH2:2][OH:3]", "[CH3:12][C:13](=[O:14])[OH:15]", "[F:1][C:2]([F:3])([F:4])[Cl:5]",
                  "[Br:1][CH2:2][I:3]", "[ClH:1]", "[BrH:1]", "[IH:7]", "[FH:1]", "[SH2:1]", "[PH3:1]", "[OH2:1]", "[NH3:1]",
                  "[CH4:1]", "[BH3:1]", "[SH:1]C", "[PH2:1]C", "[PH:1](C)C", "[S:1](=O)(=O)(C)C", "[P:1](=O)(O)(O)O",
-                 "[N:1](=O)(=O)C", "[N+:1](=O)([O-:2])C", "[ClH2+:1]", "[U:1]", "[Th+4:2]"]
+                 "[N:1](=O)(=O)C", "[N+:1](=O)([O-:2])C", "[ClH2+:1]", "[U:1]", "[Th+4:2]",
+                 # explicit aromatic bond symbols followed by ring-closure digits, multiply charged and mapped ions,
+                 # chirality classes, three-digit maps, '%' ring closures
+                 "c1:c:c:c:c:c:1", "c1:c:c:c:c:c:1C", "[cH:1]1:[cH:2]:[cH:3]:[cH:4]:[cH:5]:[cH:6]:1", "c1:c:c2:c:c:c:c:2:c:c:1",
+                 "n1:c:c:c:c:c:1", "[Mg+2:7]", "[Zn+2:7].[Cl-:1].[Cl-:2]", "[Fe+3:6]", "[Cu+2:1]", "[O-2:1]", "[S-2:1]",
+                 "[Al+3:12]", "[C@TH1:1](F)(Cl)(Br)I", "[CH3:101][OH:102]", "[CH3:999]C", "C%10CCCCC%10[CH3:1]",
+                 "[CH2:1]%11CC%11", "[NH3+:12]C", "[13CH3:1][C@@H:2](N)C(=O)[O-:4]", "[Ca++:3]", "[Ti+4:2]"]
     for t in templates:
         j = judge(t)
         if j is not None:
